@@ -25,7 +25,7 @@ PROP = "C17"
 
 def rule_control(facts):
     r = report.RuleResult("C17.R1", "control bytes 0x03-0x7F are rejected before anything else happens")
-    d = pat.body_of(facts, "Lzma2Decoder::decompress")
+    d = pat.chunk_loop_body(facts)
     p = pat.body_of(facts, "Lzma2Decoder::parse_lzma")
     r.need("Lzma2Decoder::decompress and parse_lzma", d is not None and p is not None)
     if d is None or p is None:
@@ -247,7 +247,12 @@ def run(ctx, t0):
     r4a.rule = "C17.R4a"
     r4b = C08.rule_lengths(facts)
     r4b.rule = "C17.R4b"
-    rules = [rule_control(facts), rule_props(facts), rule_sizes(facts), r4a, r4b, rule_uncompressed(facts)]
+    from rules import C02
+    r4c = C02.rule_target_order(facts)
+    r4c.rule = "C17.R4c"
+    for f in r4c.findings:
+        f.rule = "C17.R4c"
+    rules = [rule_control(facts), rule_props(facts), rule_sizes(facts), r4a, r4b, r4c, rule_uncompressed(facts)]
     expl = ("Static: guards of the LZMA2 chunk parser located by operand provenance (status bit 7, property byte bounds, "
             "lc+lp), with Err-only failing edges and dominance over the guarded construction/calls; provenance of the "
             "io::Take limit and of the output target; the Finish-mode final equality and unclamped copy lengths of "
